@@ -14,18 +14,18 @@ P = {
  'C03': ('General path theorem (coq/Props/C03.v, Proofs/PathFacts.v): a reference with a path of any length, assembled from any tokens, renders to the lookup of its segments in the fully rendered parameters, through mappings, references and multiply-defined values; the result does not depend on the order in which the parameters are written nor on which class defines the target (Proofs/OrderIndep.v, DefiningClass.v); uniqueness of rendered values + differential run on acyclic reference graphs with self-consistency (out[k] == out@path) and permutation-twin oracles.', 'walk/lookup commutation by simulation of layer merges + induction on fuel + correspondence + metamorphic oracles'),
  'C04': ('Inline-twin theorem (coq/Props/C04.v, Proofs/Twin.v): replacing, anywhere in the parameters and at any nesting depth, reference strings by the closed values they render to gives parameters that render with the same fuel to the very same result (simulation of the eight mutually recursive functions of the interpreter), also when the replacement is written the way a document writes it (strings as plain strings; second simulation, Proofs/Unrender.v); transparency of a reference layer at a ValueList node + metamorphic twin runs (inline vs reference layers) on the implementation.', 'simulation (refinement between the two renders, induction on fuel) + metamorphic twins + correspondence'),
  'C05': ('End-to-end template theorem (coq/Props/C05.v, Proofs/TemplateRender.v: a string of any number of literal pieces and references renders to the concatenation of the pieces and of the specified text forms of what the references render to) and theorems about the text form (Spec/TextOf.v) + differential run with the extracted specification text_of applied to the implementation output as oracle.', 'text-form specification + structural induction + correspondence'),
- 'C06': ('Theorems about the parser model (coq/Props/C06.v: marker-free identity, termination, every template of plain text and simple references of any length parses to its pieces, reference trees nested to any depth within the limit parse back, strings with escaped markers at the top level and inside references parse to the decoded pieces, unclosed / empty references are errors) + exhaustive comparison of parse trees over the grammar alphabet through the Token hook.', 'parser combinator model + induction + exhaustive correspondence'),
+ 'C06': ('Theorems about the parser model (coq/Props/C06.v: marker-free identity, termination, every template of plain text and simple references of any length parses to its pieces, reference trees nested to any depth within the limit parse back, strings with escaped markers at the top level and inside references parse to the decoded pieces, every string spelled by texts of arbitrary characters (lone $ { } and backslashes included), escapes and reference trees is accepted and parses to the decoded pieces, unclosed / empty references after any such string are errors) + exhaustive comparison of parse trees over the grammar alphabet through the Token hook.', 'parser combinator model + induction + exhaustive correspondence'),
  'C07': ('Closedness and fixed-point theorems over the fuelled interpreter (coq/Props/C07.v: every successful interpolation returns closed data; what a render returns renders again, with the same fuel and against any parameters, to itself) + render-twice differential run with a closedness oracle on the implementation output.', 'invariant by induction on fuel + correspondence'),
  'C08': ('Termination theorem (coq/Props/C08.v, Proofs/Termination.v: every well-formed parameter mapping, cyclic graphs included, renders to one value or error from some fuel on, never a panic), cycles of whole-value references of any length are reported as loop/depth errors, no placement of a cycle (embedded, list, mapping, layer, member path -- also through referenced and multiply-defined members) yields a value, depth bound and loop error characterisation, what renders at some state renders at every state no further along a chain (Proofs/StateDown.v) + differential run on cyclic/acyclic reference graphs, sharing and chains around the limit 64.', 'termination by a lexicographic measure (reference budget, value structure) + state invariants + correspondence'),
- 'C09': ('Theorems about insert_impl / Mapping::merge and constant keys, and end to end at any nesting depth through the C02 refinement (coq/Props/C09.v) + differential run with Spec/DeepMerge.v as oracle.', 'local laws of insert_impl + deep-merge specification + correspondence'),
+ 'C09': ('Theorems about insert_impl / Mapping::merge and constant keys, end to end at any nesting depth through the C02 refinement, and for constants delivered by references through the inline-twin theorem (coq/Props/C09.v) + differential run with Spec/DeepMerge.v as oracle.', 'local laws of insert_impl + deep-merge specification + correspondence'),
  'C10': ('Theorems about override keys in insert_impl / Mapping::merge, end to end at any nesting depth through the C02 refinement, and for overrides delivered inside referenced mappings through the inline-twin theorem (coq/Props/C10.v) + differential run with Spec/DeepMerge.v as oracle.', 'local laws of insert_impl + deep-merge specification + correspondence'),
  'C11': ('No-panic and always-returns theorems for the modelled pipeline from the YAML AST on (coq/Props/C11.v: render_node yields one value or error from some fuels on for every include graph and reference graph; every todo!/unreachable!/unwrap/panic! site on a modelled path is an outcome of the model) + crash-freedom streams (AST fuzz, byte-level files, deep inputs, file-system faults) with panic capture and process-death attribution. PARTIAL: byte-level YAML parsing, file-system faults and stack exhaustion live in libraries/runtime and are covered by the correspondence run only.', 'panic sites as outcomes + unreachability lemmas + crash-freedom runs'),
  'C12': ('Theorems that inventory aggregation is invariant under every permutation of worker results and that each entry is the single-node render (coq/Props/C12.v) + renders under rayon pools of 1..16 threads, repeated and shuffled. PARTIAL: absence of shared mutable state across threads is a runtime fact covered by the differential runs and a static audit only.', 'permutation invariance + multi-pool differential runs'),
  'C13': ('Theorems about the aggregation loop of the model (indexes are the sorted exact inverse; fails iff a node fails; coq/Props/C13.v) + differential run through the index accessor hook with an inverse-index oracle on the implementation output.', 'loop invariant by induction over the result list + correspondence'),
- 'C14': ('Theorems about name derivation and duplicate detection (coq/Props/C14.v) + random directory trees compared with the model and with a Python reading of the naming rule. PARTIAL: walkdir / symlink following / std::path are the trusted bridge from a real directory to the entry list.', 'functional specification + induction over the entry list + correspondence'),
+ 'C14': ('Theorems about name derivation (the naming rule for every directory path, stem and YAML extension; other files ignored) and duplicate detection (coq/Props/C14.v) + random directory trees compared with the model and with a Python reading of the naming rule. PARTIAL: walkdir / symlink following / std::path are the trusted bridge from a real directory to the entry list.', 'functional specification + induction over the entry list + correspondence'),
  'C15': ('Theorems about abs_class_name (coq/Props/C15.v) + exhaustive small-scope comparison through the hook + relative/absolute twin inventories.', 'structural lemmas on dot counting + exhaustive correspondence + twins'),
  'C16': ('Theorems about read_class with the ignore flag and pattern oracle (coq/Props/C16.v) + twin inventories with/without the missing include under a flag x pattern matrix.', 'case analysis on read_class + twins + correspondence'),
- 'C18': ('Theorems about as_reclass / node metadata (coq/Props/C18.v) + node files over depth x dots x underscores x composition x compat flag with a Python reading of the property as oracle.', 'functional specification + correspondence'),
+ 'C18': ('Theorems about as_reclass / node metadata (node, name, uri, environment of every NodeInfo render_node returns; parts of a discovered node file; coq/Props/C18.v) + node files over depth x dots x underscores x composition x compat flag with a Python reading of the property as oracle.', 'functional specification + correspondence'),
  'C19': ('Theorems about the conversion to a Python object algebra with Python dict semantics (coq/Props/C19.v) + embedded-CPython runs comparing Python objects with the Rust-side rendered data and as_dict() with attribute views. PARTIAL: PyO3 primitive conversions and exception mapping are covered by the embedded-CPython runs only. Known findings: Python key collisions (True/1), unhashable keys.', 'object-algebra model + structural induction + embedded CPython correspondence'),
  'C20': ('Theorems about the configuration state machine (entry points agree, reported = compiled after every history incl. failed calls; coq/Props/C20.v) + histories and three-entry-point option sets through Rust and Python (Config.from_dict) with reported-vs-behaviour oracle.', 'state-machine invariant over operation sequences + correspondence'),
  'C17': ('Theorems in coq/Props/C17.v (invariant over every sequence of loaded and merged application lists; exact post-conditions of ~x on a present / absent item and of an addition after a remembered negation; merge = replay in order; end to end with the include walk: the application list of a node is the replay of the lists of the recorded classes in walk order, then its own) hold for all lists of any length; tied to src/list/*.rs by an exhaustive small-scope + random differential run through the hook.', 'induction over operation sequences (invariants) + exhaustive correspondence'),
